@@ -40,7 +40,7 @@ def main():
         "setup_cmd": cfg["setup_cmd"],
         "hooks": cfg["hooks"],
         "engines": [{"name": "verus-contracts", "path": "/verif/vt", "serves_properties": [c["property_id"] for c in checks],
-                     "kind_free_text": "python3 extractor + contract splicer; Verus 0.2026.09.13 (Z3) discharges the obligations; Kani/CBMC for integer counterexamples"}],
+                     "kind_free_text": "python3 extractor + contract splicer; Verus 0.2026.09.13 (Z3) discharges the obligations; failing inputs come from a replay crate / the real binary built against /repo"}],
         "checks": checks,
         "not_applicable": na,
         "notes": cfg.get("notes", ""),
